@@ -27,6 +27,7 @@ KPOOL = {1: 0.5, 2: np.array([1.0, 0.5]), 3: np.array([[1.0, 0.0], [0.5, 1.0]])}
 BLPOOL = {1: 0.0, 2: 0.5, 3: np.array([0.25, 0.5])}
 BG = {1: np.array([0, 2, 1, 0], float), 2: np.array([0, 1, 3, 0], float)}
 XA = {1: np.array([1.0, 1.0]), 2: np.array([1.0, 1.0, 1.0]), 3: np.array([2.0, 0.0, 1.0])}
+WPOOL = {1: np.array([2.0, 1.0]), 2: np.array([1.0, 3.0])}
 TGT = {1: np.array([[1.0, 1.0], [3.5, 0.25]]), 2: np.array([[0.5, 1.5]])}
 PROBES = np.array([[0.5, 0.25], [1.5, 1.5], [0.75, 2.5], [3.5, 0.5], [3.5, 3.5]])
 
@@ -71,8 +72,12 @@ def apply(dreye, obj, a, shadow):
     elif op == "register_system_adaptation":
         obj.register_system_adaptation(XA[k].copy(), add_baseline=a["ab"], add=a["add"])
     elif op == "register_targets":
-        obj.register_targets(TGT[k].copy())
-        shadow["B"] = TGT[k].copy()
+        tk, wk = divmod(k, 10)
+        if wk:
+            obj.register_targets(TGT[tk].copy(), W=WPOOL[wk].copy())
+        else:
+            obj.register_targets(TGT[tk].copy())
+        shadow["B"] = TGT[tk].copy()
     elif op == "fit":
         shadow["pre_fit"] = True
         obj.fit()
@@ -96,8 +101,26 @@ def fresh_from(dreye, est, B=None):
         ub = fvec(est["ub"])
         obj.register_system(S, lb=fvec(est["lb"]), ub=(None if np.all(np.isinf(ub)) else ub))
         if B is not None:
-            obj.register_targets(np.array(B, float))
+            W = np.array(est["W"], float)
+            if np.all(W == 1):
+                obj.register_targets(np.array(B, float))
+            else:
+                obj.register_targets(np.array(B, float), W=W)
     return obj
+
+
+def light_queries(obj):
+    """cheap read-only queries (results discarded): give caches a chance to fill"""
+    for k in (1, 2):
+        obj.capture(BG[k].copy())
+        obj.relative_capture(BG[k].copy())
+    if obj.registered:
+        n = obj.A.shape[1]
+        for k, x in XA.items():
+            if len(x) == n:
+                obj.system_capture(x.copy())
+                obj.system_relative_capture(x.copy())
+        obj.in_system(np.zeros(n))
 
 
 def heavy(obj):
@@ -139,6 +162,17 @@ def same(a, b, tol):
 
 
 def replay_state(st):
+    """Replay twice: 'lazy' (queries only where the history has an explicit query step) and 'eager' (all read-only
+    queries after every step, so that anything a query caches has a chance to go stale)."""
+    out = []
+    for mode in ("lazy", "eager"):
+        for b in _replay(st, mode):
+            clause, where, exp, obs = b
+            out.append((clause, dict(mode=mode, **where), exp, obs))
+    return out
+
+
+def _replay(st, mode):
     dreye = import_dreye()
     hist, est, ans = st["hist"], st["est"], st["ans"]
     bad = []
@@ -154,6 +188,9 @@ def replay_state(st):
             apply(dreye, obj, a, shadow)
             if a["op"] == "fit":
                 shadow["B"] = np.array(obj.B, float).copy()
+            if mode == "eager" and i < len(hist) - 1:
+                heavy(obj)
+                light_queries(obj)
     except Exception as ex:
         bad.append(("C14.no-error", dict(exc=type(ex).__name__, **where0), None, repr(ex)[:200]))
         return bad
@@ -175,6 +212,7 @@ def replay_state(st):
         chk("C14.ref-model", "relative_capture", obj.relative_capture(sig), fvec(ans["relative_capture"][k - 1]))
         if not np.array_equal(sig, keep):
             bad.append(("C14.caller-array-untouched", dict(q="capture", **where0), keep.tolist(), sig.tolist()))
+    chk("C14.ref-model", "W", np.broadcast_to(np.asarray(obj.W, float), (2,)), ans["W"], 0)
     if bool(obj.registered) != ans["registered"] or bool(obj.registered_targets) != ans["registered_targets"]:
         bad.append(("C14.ref-model", dict(q="flags", **where0), [ans["registered"], ans["registered_targets"]], [bool(obj.registered), bool(obj.registered_targets)]))
     if ans["registered"]:
@@ -270,7 +308,7 @@ def _parse_full(text):
 def run(ctx):
     thorough = ctx.tier == "thorough"
     rng = random.Random(ctx.seed)
-    cfgs = ["tree3", "graph5"] if thorough else ["tree2", "graph5"]
+    cfgs = ["tree3", "rereg4", "graph5"] if thorough else ["tree2", "rereg3", "graph5"]
     seen = set()
     sts = []
     for cfg in cfgs:
@@ -278,7 +316,7 @@ def run(ctx):
         ctx.add_tlc(res)
         if not thorough and cfg == "graph5":
             rng.shuffle(ss)
-            ss = ss[:1200]
+            ss = ss[:700]
         for s in ss:
             key = repr(s["hist"])
             if key not in seen:
